@@ -2,6 +2,7 @@
    conjunction per topic, for Properties/C12.v (each Print Assumptions costs ~0.4 s of the
    quick tier; nothing new is proved here). *)
 From MM Require Import Base.Num Model.Sample Model.Quantile Model.Kde Spec.Kde Proofs.Kde Proofs.KdeBw.
+From MM Require Spec.Quantile Proofs.Quantile.
 Local Open Scope Q_scope.
 
 (* the Epanechnikov kernel of bandwidth h > 0 *)
@@ -127,14 +128,25 @@ Proof.
 Qed.
 
 (* the bandwidth rules as 10th powers *)
-Lemma G_bandwidth_rules : forall s : sample, s_ws s = None -> (2 <= length (s_xs s))%nat ->
-  (exists v : Q, bandwidth_silverman10 s = BwPow10 v /\
-                 v == rule10 (Stream.var_def (s_xs s)) (Qofnat (length (s_xs s)))) /\
-  (forall a b : Q, quantile s (3 # 4) = RVal a -> quantile s (1 # 4) = RVal b ->
-     exists v : Q, bandwidth_scott10 s = BwPow10 v /\
-       let r := (a - b) / (1349 # 1000) in
-       v == rule10 (Qminb (Stream.var_def (s_xs s)) (r * r)) (Qofnat (length (s_xs s)))).
+Lemma G_bandwidth_rules :
+  (forall s : sample, s_ws s = None -> (2 <= length (s_xs s))%nat ->
+    (exists v : Q, bandwidth_silverman10 s = BwPow10 v /\
+                   v == rule10 (Stream.var_def (s_xs s)) (Qofnat (length (s_xs s)))) /\
+    (forall a b : Q, quantile s (3 # 4) = RVal a -> quantile s (1 # 4) = RVal b ->
+       exists v : Q, bandwidth_scott10 s = BwPow10 v /\
+         let r := (a - b) / (1349 # 1000) in
+         v == rule10 (Qminb (Stream.var_def (s_xs s)) (r * r)) (Qofnat (length (s_xs s))))) /\
+  (forall xs : list Q, (2 <= length xs)%nat ->
+    exists a b v : Q,
+      quantile (Proofs.Quantile.unsorted xs) (3 # 4) = RVal a /\
+      quantile (Proofs.Quantile.unsorted xs) (1 # 4) = RVal b /\
+      a == Spec.Quantile.hf_def third_f xs (3 # 4) /\ b == Spec.Quantile.hf_def third_f xs (1 # 4) /\
+      b <= a /\
+      bandwidth_scott10 (Proofs.Quantile.unsorted xs) = BwPow10 v /\
+      let r := (a - b) / (1349 # 1000) in
+      v == rule10 (Qminb (Stream.var_def xs) (r * r)) (Qofnat (length xs))).
 Proof.
+  split; [|exact scott_rule_unsorted].
   intros s W L. split; [apply silverman_rule; assumption|]. intros a b. apply scott_rule; assumption.
 Qed.
 
